@@ -34,6 +34,8 @@ def plan (tier, seed):
     out += [dict (kind = 'procs',   i = i, seed = seed, n = 6 if tier == 'quick' else 16) for i in range (12 * k)]
     out += [dict (kind = 'inproc',  i = i, seed = seed) for i in range (16 * k)]
     out += [dict (kind = 'routes',  i = i, seed = seed) for i in range (30 * k)]
+    out += [dict (kind = 'live',    i = i, seed = seed) for i in range (20 * k)]
+    out += [dict (kind = 'sections', i = i, seed = seed) for i in range (24 * k)]
     out += [dict (c, kind = 'routes') for c in corpus.plan_cases (seed, tier, 1, 1)]
     return out
 # end def plan
@@ -432,6 +434,93 @@ def check_routes (c):
                 , nontrivial = bool (spec ['loads']) or len (spec ['geo']) > 1, margin = worst, monitors = mon, violations = viol)
 # end def check_routes
 
+def check_live (c):
+    """ several model objects alive in one process, built first and computed in turns: what one object returns does not
+        depend on what was done with another """
+    rng = np.random.default_rng ([c ['seed'], 147, c ['i']])
+    sa  = loaded_model (rng, cli_sources = True, nobj_min = 1)
+    sb  = loaded_model (rng, cli_sources = True, nobj_min = 1)
+    MM  = common.repo ()
+    a   = gen.build (sa)
+    observe.solve (a)
+    ref = dict (current = np.array (a.current), Z = np.array (a.Z), imp = np.array ([complex (s.impedance) for s in a.sources]))
+    b   = gen.build (sb)
+    a2  = gen.build (sa)            # a second object of the first model, built while the other model is alive
+    observe.solve (b)
+    rb  = dict (current = np.array (b.current), imp = np.array ([complex (s.impedance) for s in b.sources]))
+    viol, mon = [], {}
+    worst = 0.0
+    def cmp (name, got, want):
+        nonlocal worst
+        for k in want:
+            e = relerr (got [k], want [k])
+            mon [name] = mon.get (name, 0) + 1
+            worst = max (worst, e / 1e-12)
+            if e > 1e-12 and len (viol) < 6:
+                viol.append (dict (monitor = 'live:' + name, key = 'live-objects-' + k, msg = '%s: %s differs by %.3g' % (name, k, e), measured = e, allowed = 1e-12))
+    observe.solve (a)
+    cmp ('first object computed again after another model was computed', dict (current = np.array (a.current), Z = np.array (a.Z), imp = np.array ([complex (s.impedance) for s in a.sources])), ref)
+    observe.solve (a2)
+    cmp ('second object of the first model, built before and computed after the other model', dict (current = np.array (a2.current), Z = np.array (a2.Z), imp = np.array ([complex (s.impedance) for s in a2.sources])), ref)
+    observe.solve (b)
+    cmp ('other model computed again', dict (current = np.array (b.current), imp = np.array ([complex (s.impedance) for s in b.sources])), rb)
+    return dict ( status = 'violation' if viol else 'held', sig = 'live|%s|%s|%d-%d' % (sa.get ('fam'), sb.get ('fam'), len (a.pulses), len (b.pulses))
+                , nontrivial = len (a.pulses) != len (b.pulses), margin = worst, monitors = {k [:40]: v for k, v in mon.items ()}, violations = viol)
+# end def check_live
+
+def block (text, head, stops):
+    """ lines of the report from the line containing head up to the next line containing one of stops """
+    out, on = [], False
+    for l in text.split ('\n'):
+        if head in l:
+            on = True
+        elif on and any (s in l for s in stops):
+            break
+        if on and l.strip ():
+            out.append (l)
+    return out
+# end def block
+
+def check_sections (c):
+    """ the far-field part of a report that also has a near field (with its own power level) is the far-field part of
+        the report without the near field, and the other way round """
+    rng  = np.random.default_rng ([c ['seed'], 148, c ['i']])
+    spec = loaded_model (rng, cli_sources = True, nobj_min = 1)
+    argv = gen.to_argv (spec)
+    lam  = gen.C_MHZ / spec ['f']
+    far  = ['--theta=10,30,3', '--phi=0,90,2', '--option', 'far-field'] + (['--option', 'far-field-absolute', '--ff-distance', '%g' % float (10 ** rng.uniform (1, 4))] if rng.random () < 0.7 else [])
+    if rng.random () < 0.4:
+        far += ['--ff-power', '%g' % float (10 ** rng.uniform (-1, 3))]
+    near = ['--near-field=%r,%r,%r,1,1,1,2,1,1' % (2 * lam, 1.5 * lam, 2 * lam), '--option', 'near-field']
+    if rng.random () < 0.7:
+        near += ['--nf-power', '%g' % float (10 ** rng.uniform (-1, 3))]
+    both = common.run_main (argv + far + near)
+    fo   = common.run_main (argv + far)
+    no   = common.run_main (argv + near)
+    for r in (both, fo, no):
+        if r ['kind'] == 'exception':
+            raise common.Repo_Crash (r ['exc'], 'main')
+    if both ['ret'] is not None or fo ['ret'] is not None or no ['ret'] is not None:
+        return dict (status = 'discard', reason = 'rejected: ' + (both ['out'] + both ['err']).strip () [-60:])
+    viol, mon = [], {}
+    for head in ('*     FAR FIELD      *',):
+        a, b = block (both ['out'], head, ('*    NEAR FIELDS     *',)), block (fo ['out'], head, ('*    NEAR FIELDS     *',))
+        if len (a) < 5 or len (b) < 5:
+            return dict (status = 'inconclusive', reason = 'far-field part of the report not found')
+        mon ['far-section'] = mon.get ('far-section', 0) + 1
+        if a != b:
+            viol.append (dict (monitor = 'far-section', key = 'far-section-depends-on-near-request', msg = 'far-field part of the report with a near-field request differs from the report without it: %r' % ([(x, y) for x, y in zip (a, b) if x != y] [:2] or (len (a), len (b)),)))
+            break
+    a, b = block (both ['out'], '*    NEAR FIELDS     *', ('*     FAR FIELD      *',)), block (no ['out'], '*    NEAR FIELDS     *', ('*     FAR FIELD      *',))
+    mon ['near-section'] = 1
+    if len (a) < 10 or len (b) < 10:
+        return dict (status = 'inconclusive', reason = 'near-field part of the report not found')
+    if a != b:
+        viol.append (dict (monitor = 'near-section', key = 'near-section-depends-on-far-request', msg = 'near-field part of the report with a far-field request differs from the report without it: %r' % ([(x, y) for x, y in zip (a, b) if x != y] [:2] or (len (a), len (b)),)))
+    return dict (status = 'violation' if viol else 'held', sig = 'sections|%s|%d%d%d' % (spec.get ('fam'), '--ff-power' in far, '--nf-power' in near, '--ff-distance' in far)
+                , nontrivial = '--nf-power' in near or '--ff-power' in far, monitors = mon, violations = viol)
+# end def check_sections
+
 def check (c):
-    return dict (history = check_history, sweep = check_sweep, procs = check_procs, inproc = check_inproc, routes = check_routes) [c ['kind']] (c)
+    return dict (live = check_live, sections = check_sections, history = check_history, sweep = check_sweep, procs = check_procs, inproc = check_inproc, routes = check_routes) [c ['kind']] (c)
 # end def check
